@@ -163,7 +163,7 @@ MVCC = 'mvccadapter.py'
 MUTANTS += [
  ('C15', 'gettid-at-equals-before', 'DB.py', "        before = at.laterThan(at).raw()", "        before = at.raw()"),
  ('C15', 'historical-load-current', MVCC, "        r = self._storage.loadBefore(oid, self._before)\n        if r is None:\n            raise POSException.POSKeyError(oid)\n        return r[:2]", "        r = self._storage.loadBefore(oid, b'\\x7f' + b'\\xff' * 7)\n        if r is None:\n            raise POSException.POSKeyError(oid)\n        return r[:2]"),
- ('C15', 'future-check-removed', 'DB.py', "        if (before is not None and\n            before > self.lastTransaction() and\n                before > getTID(self.lastTransaction(), None)):\n            raise ValueError(\n                'cannot open an historical connection in the future.')", "        pass"),
+ ('C15', 'future-check-removed', 'DB.py', "            if before > last and before > getTID(last, None):\n                raise ValueError(\n                    'cannot open an historical connection in the future.')", "            pass"),
  ('C15', 'historical-pool-ignores-bound', 'DB.py', "    def pop(self, key):\n        pool = self.pools.get(key)\n        if pool is not None:\n            return pool.pop()", "    def pop(self, key):\n        pool = self.pools.get(key) or (list(self.pools.values()) or [None])[0]\n        if pool is not None:\n            return pool.pop()"),
  ('C15', 'datetime-drops-microseconds', 'DB.py', "    args = utc_struct[:5] + (utc_struct[5] + dt.microsecond / 1000000.0,)", "    args = utc_struct[:5] + (utc_struct[5] + 0.0,)"),
 ]
@@ -239,3 +239,16 @@ MUTANTS += [
  ('C16', 'demo-loadblob-no-base-fallback', 'DemoStorage.py', "        try:\n            return self.changes.loadBlob(oid, serial)\n        except ZODB.POSException.POSKeyError:\n            try:\n                return self.base.loadBlob(oid, serial)", "        try:\n            return self.changes.loadBlob(oid, serial)\n        except ZODB.POSException.POSKeyError:\n            try:\n                raise ZODB.POSException.POSKeyError(oid, serial)"),
  ('C16', 'demo-blobify-in-base-blob-dir', 'DemoStorage.py', "            blob_dir = tempfile.mkdtemp('.demoblobs')", "            blob_dir = getattr(getattr(self.base, 'fshelper', None), 'base_dir', None) or tempfile.mkdtemp('.demoblobs')"),
 ]
+
+# Mutants that no check kills and that were judged EQUIVALENT within the properties' domains (kept for the
+# record, not run): name -> why
+EQUIVALENT = {
+ 'truncate-check-off-by-8': 'read_index accepts a last transaction whose trailing 8-byte length is cut off; under the prefix/torn-write '
+                            'crash model such a transaction always still has status "c" (the status byte is flipped only after the '
+                            'whole transaction is written and synced), so it is dropped by the status test in the same condition',
+ 'sanity-skips-index-compare': '_check_sanity no longer compares the index entries of the last transaction; an index that passes the '
+                               'remaining tests (position is a transaction boundary with the recorded tid before it) and still maps '
+                               'these oids elsewhere needs a different history with the same tid at the same offset - no earlier '
+                               'moment of the same file (before a pack, before later commits) produces one',
+}
+MUTANTS = [m for m in MUTANTS if m[1] not in EQUIVALENT]
